@@ -89,19 +89,14 @@ MSnapshot == \E s \in DOMAIN stores :
 MClose == \E s \in DOMAIN stores :
            /\ IsOpen(s) /\ Close(s) /\ Rec(<<"Close", s>>) /\ UNCHANGED <<frozen, clean>>
 
-MCopyTo == \E s \in DOMAIN stores, fe \in FlushEverys :
-           /\ IsOpen(s) /\ FreshStore # 0 /\ FreshFile # 0
-           /\ LET f2 == FreshFile
-                  n == Len(CopyStates(stores[s].colls, fe))
+MCopyTo == \E s \in DOMAIN stores, fe \in FlushEverys, f2 \in DOMAIN files :
+           /\ IsOpen(s) /\ FreshStore # 0
+           /\ files[f2].len = 0 /\ \A x \in DOMAIN stores : stores[x].file # f2
+           /\ LET sts == CopyStates(stores[s].colls, fe)
+                  n == Len(sts)
                   ends == [i \in 1..n |-> i * RecSize]
                   ws == [i \in 1..n |-> <<(i - 1) * RecSize, RecSize>>]
-              IN /\ files' = SetFile(f2, LET fr0 == FileAfterWrites(EmptyFile, ws)
-                                              sts == CopyStates(stores[s].colls, fe)
-                                              RECURSIVE Push(_, _)
-                                              Push(fr, i) == IF i > n THEN fr ELSE Push(PushDur(fr, ends[i], sts[i]), i + 1)
-                                          IN Push(fr0, 1))
-                 /\ stores' = SetStore(FreshStore, StoreRec(FALSE, f2, IF n = 0 THEN 0 ELSE ends[n],
-                                                            [nm \in Names(s) |-> CopiedColl(Coll(s, nm))]))
+              IN CopyTo(s, FreshStore, f2, sts, ws, ends)
            /\ Rec(<<"CopyTo", s, FreshStore, fe>>)
            /\ clean' = SetGhost(clean, FreshStore, fe > 0) /\ UNCHANGED frozen
 
